@@ -636,8 +636,10 @@ class LookupBase:
     def lookup(self, required, provided, name='', default=None):
         if not isinstance(name, str):
             raise ValueError('name is not a string')
-        cache = self._getcache(provided, name)
+        # Resolve ``required`` first: iterating it can run arbitrary code,
+        # and a cache fetched before that may be detached by ``changed()``.
         required = tuple(required)
+        cache = self._getcache(provided, name)
         if len(required) == 1:
             result = cache.get(required[0], _not_in_mapping)
         else:
@@ -690,12 +692,12 @@ class LookupBase:
         return default
 
     def lookupAll(self, required, provided):
+        required = tuple(required)
         cache = self._mcache.get(provided)
         if cache is None:
             cache = {}
             self._mcache[provided] = cache
 
-        required = tuple(required)
         result = cache.get(required, _not_in_mapping)
         if result is _not_in_mapping:
             result = self._uncached_lookupAll(required, provided)
@@ -704,12 +706,12 @@ class LookupBase:
         return result
 
     def subscriptions(self, required, provided):
+        required = tuple(required)
         cache = self._scache.get(provided)
         if cache is None:
             cache = {}
             self._scache[provided] = cache
 
-        required = tuple(required)
         result = cache.get(required, _not_in_mapping)
         if result is _not_in_mapping:
             result = self._uncached_subscriptions(required, provided)
